@@ -1,12 +1,19 @@
 package h
 
-// C12 — bytecode post-processing preserves behaviour (constant
-// de-duplication). Serialization (encoding/gob) is reflection-driven and
-// cannot be executed by the engine: see DESIGN.md, that half is not claimed.
+// C12 — bytecode post-processing preserves behaviour: constant
+// de-duplication, and writing bytecode out and reading it back. The
+// reflection-driven codec (encoding/gob) itself cannot be executed by the
+// engine: it is replaced by a model (gobModel below: what gob hands back for
+// the registered types), after which tengo's own fix-up of decoded objects
+// (fixDecodedObject) is executed; the native replay uses the real
+// Encode/Decode, so every replayed path also validates the model.
 
 import (
+	"bytes"
+
 	"github.com/d5/tengo/v2"
 	"github.com/d5/tengo/v2/parser"
+	"github.com/d5/tengo/v2/stdlib"
 	"verif/h/vf"
 )
 
@@ -110,7 +117,37 @@ func dedupOK(bc *tengo.Bytecode) string {
 	return ""
 }
 
+// objModule is a user-defined Importable that hands the compiler a plain
+// object (no __module_name__), as an embedding application may.
+type objModule struct{ o tengo.Object }
+
+func (m objModule) Import(string) (interface{}, error) { return m.o, nil }
+
+func c12Modules() *tengo.ModuleMap {
+	mods := tengo.NewModuleMap()
+	mods.AddSourceModule("m", []byte(`export {v: 10, f: func(x) { return x + 10 }}`))
+	mods.AddSourceModule("m2", []byte(`k := 10; export func(x) { return x * k + 10 }`))
+	mods.AddBuiltinModule("math", stdlib.BuiltinModules["math"])
+	mods.AddBuiltinModule("text", stdlib.BuiltinModules["text"])
+	mods.Add("cfg_a", objModule{&tengo.ImmutableMap{Value: map[string]tengo.Object{"name": &tengo.String{Value: "alpha"}, "n": &tengo.Int{Value: 10}}}})
+	mods.Add("cfg_b", objModule{&tengo.ImmutableMap{Value: map[string]tengo.Object{"name": &tengo.String{Value: "beta"}, "n": &tengo.Int{Value: 10},
+		"flags": &tengo.Array{Value: []tengo.Object{tengo.TrueValue, tengo.FalseValue, tengo.UndefinedValue}},
+		"deep":  &tengo.ImmutableArray{Value: []tengo.Object{&tengo.Map{Value: map[string]tengo.Object{"t": tengo.TrueValue, "u": tengo.UndefinedValue}}, &tengo.Error{Value: tengo.FalseValue}}},
+		"empty": &tengo.Array{Value: []tengo.Object{}}, "blob": &tengo.Bytes{Value: []byte{0, 255}}, "ch": &tengo.Char{Value: 'x'}, "fl": &tengo.Float{Value: 10}}}})
+	// (only maps: RemoveDuplicates rejects any other top-level constant type
+	// with an explicit "unsupported top-level constant type" panic)
+	return mods
+}
+
 var dedupProgs = []Prog{
+	{"two-object-modules", `x := import("cfg_a"); y := import("cfg_b"); out := [x.name, y.name, x.n + y.n + 10, import("cfg_a").name, import("cfg_b").name]`, false},
+	{"object-module-singletons", `y := import("cfg_b"); out := [y.flags[0] == true, y.flags[1] == false, y.flags[2] == undefined, y.deep[0].t == true, y.deep[0].u == undefined, y.deep[1].value == false, is_undefined(y.flags[2]), y.flags[0] ? 1 : 2, len(y.empty), y.blob, y.ch, y.fl, c == y.flags[0]]`, false},
+	{"builtin-modules", `m := import("math"); t := import("text"); out := [m.abs(-2.5), m.pi, t.repeat("ab", 2), t.trim_space(" x "), import("math").max(a, b), m.maxInt64 == 9223372036854775807]`, false},
+	{"source-modules-twice", `f := import("m2"); g := import("m2"); out := [f(a), g(b), import("m").f(10), import("m").v]`, false},
+	{"object-module-error-position", `y := import("cfg_b")
+z := y.n +
+  y.flags
+out := z`, false},
 	{"repeated-literals", `x := 1 + 1 + 2; y := "s" + "s" + "t"; z := 1.5 + 1.5; w := 'c' == 'c'; out := [x, y, z, w, 1, "s", 1.5, 'c']`, false},
 	{"funcs-share-consts", `f := func() { return 7 + a }; g := func() { return 7 + b }; h := func() { return func() { return 7 } }; out := f() + g() + h()()`, false},
 	{"err-after-dedup", `f := func(x) { return x + "s" - 1 }; k := 1; out := f(a) + 1`, false},
@@ -145,8 +182,7 @@ func C12_Dedup() {
 		co = tengo.TrueValue
 	}
 	inputs := map[string]tengo.Object{"a": &tengo.Int{Value: a}, "b": &tengo.Int{Value: b}, "c": co}
-	mods := tengo.NewModuleMap()
-	mods.AddSourceModule("m", []byte(`export {v: 10, f: func(x) { return x + 10 }}`))
+	mods := c12Modules()
 	bc, g1, _, err := compileRaw(p.Src, inputs, []string{"a", "b", "c"}, mods)
 	vf.Assert(err == nil, "program compiles: "+p.Name)
 	g2 := cloneGlobals(g1)
@@ -208,4 +244,221 @@ func C12_SymbolicPool() {
 	vf.Assert(acc, "every constant load yields the same value after de-duplication")
 	vf.Assert(len(b2.Constants) <= len(b1.Constants), "de-duplication never grows the pool")
 	vf.Reach("pool")
+}
+
+// ---- writing bytecode out and reading it back
+
+// gobModel is what encoding/gob hands back for an object of the registered
+// types: a structurally equal value in which every pointer is fresh (so the
+// true/false/undefined singletons are lost), func-typed fields are dropped,
+// and empty slices and maps come back nil.
+func gobModel(o tengo.Object) tengo.Object {
+	switch v := o.(type) {
+	case nil:
+		return nil
+	case *tengo.Int:
+		return &tengo.Int{Value: v.Value}
+	case *tengo.Float:
+		return &tengo.Float{Value: v.Value}
+	case *tengo.Char:
+		return &tengo.Char{Value: v.Value}
+	case *tengo.String:
+		return &tengo.String{Value: v.Value}
+	case *tengo.Time:
+		return &tengo.Time{Value: v.Value}
+	case *tengo.Bytes:
+		if len(v.Value) == 0 {
+			return &tengo.Bytes{}
+		}
+		return &tengo.Bytes{Value: append([]byte(nil), v.Value...)}
+	case *tengo.Bool:
+		return tengo.VerifNewBool(!v.IsFalsy())
+	case *tengo.Undefined:
+		return &tengo.Undefined{}
+	case *tengo.Error:
+		return &tengo.Error{Value: gobModel(v.Value)}
+	case *tengo.Array:
+		return &tengo.Array{Value: gobModelSlice(v.Value)}
+	case *tengo.ImmutableArray:
+		return &tengo.ImmutableArray{Value: gobModelSlice(v.Value)}
+	case *tengo.Map:
+		return &tengo.Map{Value: gobModelMap(v.Value)}
+	case *tengo.ImmutableMap:
+		return &tengo.ImmutableMap{Value: gobModelMap(v.Value)}
+	case *tengo.UserFunction:
+		return &tengo.UserFunction{Name: v.Name}
+	case *tengo.CompiledFunction:
+		out := &tengo.CompiledFunction{NumLocals: v.NumLocals, NumParameters: v.NumParameters, VarArgs: v.VarArgs}
+		if len(v.Instructions) > 0 {
+			out.Instructions = append([]byte(nil), v.Instructions...)
+		}
+		if len(v.SourceMap) > 0 {
+			out.SourceMap = make(map[int]parser.Pos)
+			for k, p := range v.SourceMap {
+				out.SourceMap[k] = p
+			}
+		}
+		return out
+	}
+	vf.Fail("gobModel: a constant of a type that is not registered with gob: " + o.TypeName())
+	return nil
+}
+
+func gobModelSlice(s []tengo.Object) []tengo.Object {
+	if len(s) == 0 {
+		return nil
+	}
+	out := make([]tengo.Object, len(s))
+	for i, e := range s {
+		out[i] = gobModel(e)
+	}
+	return out
+}
+
+func gobModelMap(m map[string]tengo.Object) map[string]tengo.Object {
+	if len(m) == 0 {
+		return nil
+	}
+	out := make(map[string]tengo.Object)
+	for k, e := range m {
+		out[k] = gobModel(e)
+	}
+	return out
+}
+
+func gobModelFileSet(fs *parser.SourceFileSet) *parser.SourceFileSet {
+	out := &parser.SourceFileSet{Base: fs.Base}
+	for _, f := range fs.Files {
+		nf := &parser.SourceFile{Name: f.Name, Base: f.Base, Size: f.Size}
+		if len(f.Lines) > 0 {
+			nf.Lines = append([]int(nil), f.Lines...)
+		}
+		out.Files = append(out.Files, nf)
+		if f == fs.LastFile {
+			out.LastFile = nf
+		}
+	}
+	return out
+}
+
+// writeReadBack returns the bytecode as it is after Encode and Decode. In the
+// engine the codec is the model above followed by the real fix-up of decoded
+// objects; natively it is the real Bytecode.Encode / Bytecode.Decode.
+func writeReadBack(bc *tengo.Bytecode, mods *tengo.ModuleMap) (*tengo.Bytecode, error) {
+	if !vf.Symbolic() {
+		var buf bytes.Buffer
+		if err := bc.Encode(&buf); err != nil {
+			return nil, err
+		}
+		out := &tengo.Bytecode{}
+		if err := out.Decode(bytes.NewReader(buf.Bytes()), mods); err != nil {
+			return nil, err
+		}
+		return out, nil
+	}
+	out := &tengo.Bytecode{FileSet: gobModelFileSet(bc.FileSet), MainFunction: gobModel(bc.MainFunction).(*tengo.CompiledFunction)}
+	for _, c := range bc.Constants {
+		fv, err := tengo.VerifFixDecoded(gobModel(c), mods)
+		if err != nil {
+			return nil, err
+		}
+		out.Constants = append(out.Constants, fv)
+	}
+	return out, nil
+}
+
+// singletonsOK: after reading back, every bool and undefined reachable from
+// the constants is the package singleton (Bool.Equals and the VM compare them
+// by identity).
+func singletonsOK(o tengo.Object, depth int) bool {
+	if depth > 6 {
+		return true
+	}
+	switch v := o.(type) {
+	case *tengo.Bool:
+		return v == tengo.TrueValue || v == tengo.FalseValue
+	case *tengo.Undefined:
+		return v == tengo.UndefinedValue
+	case *tengo.Error:
+		return singletonsOK(v.Value, depth+1)
+	case *tengo.Array:
+		for _, e := range v.Value {
+			if !singletonsOK(e, depth+1) {
+				return false
+			}
+		}
+	case *tengo.ImmutableArray:
+		for _, e := range v.Value {
+			if !singletonsOK(e, depth+1) {
+				return false
+			}
+		}
+	case *tengo.Map:
+		for _, e := range v.Value {
+			if !singletonsOK(e, depth+1) {
+				return false
+			}
+		}
+	case *tengo.ImmutableMap:
+		for _, e := range v.Value {
+			if !singletonsOK(e, depth+1) {
+				return false
+			}
+		}
+	}
+	return true
+}
+
+// C12_WriteRead: every program behaves the same before and after its
+// bytecode is written out and read back (as the CLI does for compiled files:
+// compile, RemoveDuplicates, Encode; Decode, run).
+func C12_WriteRead() {
+	k := vf.Choice("prog", len(dedupProgs)+len(Catalog)+len(Hostile))
+	var p Prog
+	switch {
+	case k < len(dedupProgs):
+		p = dedupProgs[k]
+	case k < len(dedupProgs)+len(Catalog):
+		p = Catalog[k-len(dedupProgs)]
+	default:
+		p = Hostile[k-len(dedupProgs)-len(Catalog)]
+	}
+	a, b := vf.Int64("a"), vf.Int64("b")
+	c := vf.Bool("c")
+	if p.Small {
+		vf.Assume(a >= -1)
+		vf.Assume(a <= 3)
+		vf.Assume(b >= -1)
+		vf.Assume(b <= 3)
+	}
+	var co tengo.Object = tengo.FalseValue
+	if c {
+		co = tengo.TrueValue
+	}
+	inputs := map[string]tengo.Object{"a": &tengo.Int{Value: a}, "b": &tengo.Int{Value: b}, "c": co}
+	mods := c12Modules()
+	bc, g1, _, err := compileRaw(p.Src, inputs, []string{"a", "b", "c"}, mods)
+	vf.Assert(err == nil, "program compiles: "+p.Name)
+	if vf.Choice("dedup-first", 2) == 1 {
+		bc.RemoveDuplicates()
+	}
+	g2 := cloneGlobals(g1)
+	var bc2 *tengo.Bytecode
+	var werr error
+	res := vf.Guard(func() { bc2, werr = writeReadBack(bc, mods) }, 6000000)
+	vf.Assert(res == 0, "Encode/Decode return: "+p.Name+": "+vf.LastGuard())
+	vf.Assert(werr == nil, "bytecode of a program without user functions in its constants is written and read back without error: "+p.Name)
+	vf.Assert(len(bc2.Constants) == len(bc.Constants), "same number of constants after reading back: "+p.Name)
+	for _, cst := range bc2.Constants {
+		vf.Assert(singletonsOK(cst, 0), "true/false/undefined inside constants are the singletons again after reading back: "+p.Name)
+	}
+	e1, p1, t1 := runBC(bc, g1)
+	e2, p2, t2 := runBC(bc2, g2)
+	vf.Assert(p1 == p2 && t1 == t2, "same Go panic before and after writing out and reading back: "+p.Name)
+	vf.Assert((e1 == nil) == (e2 == nil), "fails before iff fails after reading back: "+p.Name)
+	if e1 != nil {
+		vf.Assert(errText(e1) == errText(e2), "same error text and positions after reading back: "+p.Name)
+	}
+	vf.Assert(sameGlobalSlices(g1, g2), "same global values after reading back: "+p.Name)
+	vf.Reach("writeread")
 }
